@@ -245,7 +245,7 @@ func (g *Gen) generate1(fn *ssa.Function, con *Contract, heapOrder []string, hea
 	res = &FuncResult{Func: g.fnName(fn), Contract: con}
 	fc := &fnCtx{g: g, fn: fn, con: con, sc: NewScript(), heapSort: map[string]string{}, vals: map[ssa.Value]Val{},
 		ordinals: map[string]int{}, globals: map[string]string{}, implSyms: map[string]types.Type{}, pureDone: map[string]bool{},
-		globalVals: map[*ssa.Global]Val{}, globalSyms: map[string]*ssa.Global{}, locals: map[string]Val{}, localIsAddr: map[string]bool{}}
+		globalVals: map[*ssa.Global]Val{}, globalSyms: map[string]*ssa.Global{}, locals: map[string]Val{}, localIsAddr: map[string]bool{}, sliceBase: map[string]sliceBaseRec{}}
 	fc.sc.Raw(prelude, preludeSyms...)
 	fc.so = newSorter(fc.sc)
 	for _, h := range heapOrder {
